@@ -47,7 +47,7 @@ KnownAtClose(S, n) == {h.hash : h \in {x \in S : x.pk /\ ((n = Owner /\ x.k = "r
 Rec(by, ins, nout, sweep) ==
   [by |-> by, ins |-> ins, wal |-> [k \in 1..Len(ins) |-> FALSE], nout |-> nout,
    outwal |-> [k \in 1..nout |-> sweep], feerate |-> 253, ok |-> TRUE, valid |-> TRUE, final |-> TRUE,
-   sweep |-> sweep, dup |-> FALSE, bh |-> height]
+   sweep |-> sweep, dup |-> FALSE, bh |-> height, own |-> 253, weight |-> 1, inval |-> 0, onrb |-> FALSE]
 
 MCInit ==
   /\ OInit
@@ -59,8 +59,8 @@ Live2 == IF Mode = "revoked" THEN {Other} ELSE {0, 1}
 \* ---- the run begins: parameters, the commitment is broadcast and confirms
 MOpen ==
   /\ stage = "start" /\ par.kind = "none"
-  /\ Open([kind |-> Mode, live |-> Live2, owner |-> Owner, delays |-> <<AR, AR>>, anti_reorg |-> AR,
-           chan_type |-> "static", h |-> H0])
+  /\ Open([kind |-> Mode, live |-> Live2, owner |-> Owner, delays |-> <<144, 144>>, anti_reorg |-> AR,
+           chan_type |-> "static", h |-> H0, est |-> <<253, 253>>])
   /\ UNCHANGED <<stage, nextId, shape, blocks, reloads, hist>>
 MBcastCommit ==
   /\ stage = "start" /\ par.kind # "none" /\ 2 \notin DOMAIN txs
@@ -163,7 +163,7 @@ MBlockAdv(W, S) ==
           /\ txs' = txs1
           /\ conf' = [x \in DOMAIN conf \cup ids \cup cheatTx |-> IF x \in DOMAIN conf THEN conf[x] ELSE height + 1]
           /\ starved' = <<starved[1] \/ LeftOut(0, ids), starved[2] \/ LeftOut(1, ids)>>
-          /\ UNCHANGED <<par, com, known, handed, bal, asked>> /\ rb' = NoRb
+          /\ UNCHANGED <<par, com, known, handed, bal, asked, est, gaveup>> /\ rb' = NoRb
   /\ nextId' = IF S = {} THEN nextId ELSE nextId + 1
   /\ blocks' = blocks + 1 /\ stage' = "react"
   /\ hist' = Append(hist, [op |-> "block", who |-> W, cheat |-> {r.hash : r \in S}, h |-> height + 1])
